@@ -121,6 +121,25 @@ func (r *Run) buildAndSolve(fns []*ssa.Function) {
 }
 
 func (r *Run) Main() int {
+	if ms := os.Getenv("GOVC_MODSET"); ms != "" {
+		for k, f := range r.eng.funcByKey {
+			if strings.Contains(k, ms) {
+				m := r.eng.modSetOf(f)
+				fmt.Println("MODSET", k, "all=", m.All)
+				var names []string
+				for n := range m.Names {
+					if m.NonFresh[n] {
+						names = append(names, n)
+					}
+				}
+				sort.Strings(names)
+				for _, n := range names {
+					fmt.Println("   nonfresh", n)
+				}
+			}
+		}
+		return 0
+	}
 	fns := r.eng.FunctionsFor(r.prop)
 	if r.prop == "C08" {
 		r.eng.sweepMode = true
